@@ -1,6 +1,8 @@
 import PartituraModel.Wire
 import PartituraModel.Model.Transpose
 import PartituraModel.Model.RomanRoot
+import PartituraModel.Model.TransposeHeap
+import PartituraModel.Model.LocalKey
 
 open Wire Model
 
@@ -15,6 +17,24 @@ def parseDir : P Bool := do
 
 def fmtSpelling (r : String × Option Int × Int) : String :=
   fmtTuple [r.1, fmtOpt fmtInt r.2.1, fmtInt r.2.2]
+
+/-- one heap cell: `S parts` | `P objects` | `N step alter octave refs payload` | `O refs payload` -/
+def parseCell : P TH.Cell := do
+  let t ← tok
+  match t with
+  | "S" => do let ps ← list nat; pure (.score ps)
+  | "P" => do let os ← list nat; pure (.part os)
+  | "N" => do
+    let s ← str; let a ← opt int; let o ← int; let rs ← list nat; let p ← list int
+    pure (.note s a o rs p)
+  | "O" => do let rs ← list nat; let p ← list int; pure (.other rs p)
+  | _ => P.fail
+
+def fmtCell : TH.Cell → String
+  | .score ps => "S" ++ fmtList fmtNat ps
+  | .part os => "P" ++ fmtList fmtNat os
+  | .note s a o rs p => "N" ++ fmtTuple [s, fmtOpt fmtInt a, fmtInt o, fmtList fmtNat rs, fmtList fmtInt p]
+  | .other rs p => "O" ++ fmtTuple [fmtList fmtNat rs, fmtList fmtInt p]
 
 def handle (ts : List String) : String :=
   match ts with
@@ -33,6 +53,20 @@ def handle (ts : List String) : String :=
   | "rroot" :: rest =>  -- RomanNumeral.find_root_note (table path): local key, primary degree, secondary degree
     orErr <| (run (do let lk ← str; let p ← str; let s ← str; pure (lk, p, s)) rest).bind
       fun (lk, p, s) => (romanRoot lk p s).map fun (st, a) => fmtTuple [st, fmtInt a]
+  | "ksa" :: rest =>  -- _key_step_alter(name)
+    orErr <| (run str rest).bind fun nm => (keyStepAlter nm).map fun (s, a) => fmtTuple [s, fmtInt a]
+  | "plk" :: rest =>  -- process_local_key(loc, glob, return_step_alter)
+    orErr <| (run (do let l ← str; let g ← str; let f ← bool; pure (l, g, f)) rest).bind fun (l, g, f) =>
+      (processLocalKey l g f).map fun r => match r with
+        | .name nm => "N:" ++ nm
+        | .stepAlter st a => fmtTuple [st, fmtInt a]
+  | "rn" :: rest =>   -- RomanNumeral(inversion, local_key, primary, secondary, quality): (root, bass_note) | - (not computed)
+    orErr <| (run (do let i ← nat; let lk ← str; let p ← str; let s ← str; let q ← str; pure (i, lk, p, s, q)) rest).bind
+      fun (i, lk, p, s, q) => (romanRootBass i lk p s q).map fun r => fmtOpt (fun (x : String × String) => fmtTuple [x.1, x.2]) r
+  | "th" :: rest =>   -- transpose on a heap: quality number dir root cells; answers the returned address and the heap after
+    orErr <| (run (do let q ← str; let n ← nat; let d ← parseDir; let r ← nat; let cells ← list parseCell
+                      pure (q, n, d, r, cells)) rest).bind fun (q, n, d, r, cells) =>
+      (TH.transpose cells r ⟨q, n, d⟩).map fun (h', r') => fmtTuple [fmtNat r', fmtList fmtCell h']
   | _ => "bad-request"
 
 def main : IO Unit := mainLoop handle
